@@ -121,6 +121,12 @@ def select_cases():
         for col in ("same", "different"):
             for via in ("ctor", "as_after_use"):
                 yield {"k": "correlated_self", "shapes": ["plain"], "order": order, "col": col, "via": via}
+    # clause-setting calls in every order; columns given by name (bound to the first FROM table)
+    for sh in ("plain", "aliased", "schema"):
+        for order in itertools.permutations(("from", "select", "where", "orderby")):
+            yield {"k": "call_order", "shapes": [sh], "order": list(order), "join": False}
+        for order in (("from", "join", "select", "where", "orderby"), ("from", "select", "where", "join", "orderby"), ("from", "where", "orderby", "select", "join")):
+            yield {"k": "call_order", "shapes": [sh, "plain"], "order": list(order), "join": True}
     for first in ("lookup_on_base", "no_lookup"):
         for naming in ("auto", "as_"):
             yield {"k": "derived_sources", "shapes": ["plain"], "first": first, "naming": naming}
@@ -232,6 +238,25 @@ def build(case, Q):
         expect(srcs[-1:], ["selx", "hav"], multi)
         expect(srcs[:1], ["selc"], multi)
         exp["shared__using"] = (False, None)
+        return q, exp
+    if k == "call_order":
+        a = srcs[0]
+        multi = case["join"]
+        for step in case["order"]:
+            if step == "from":
+                q = q.from_(a.obj)
+            elif step == "join":
+                q = q.join(srcs[1].obj).on(a.f("on") == srcs[1].f("on"))
+            elif step == "select":
+                # (a column given by name needs the FROM table to exist already)
+                q = q.select(a.f("sel"), "s1__selstr") if case["order"].index("from") < case["order"].index("select") else q.select(a.f("sel"))
+            elif step == "where":
+                q = q.where(a.f("whr") > 1)
+            elif step == "orderby":
+                q = q.orderby("s1__ordstr").orderby(a.f("ord")).groupby("s1__grpstr") if case["order"].index("from") < case["order"].index("orderby") else q.orderby(a.f("ord"))
+        expect([a], ["sel", "whr", "ord", "selstr", "ordstr", "grpstr", "on"], multi)
+        if multi:
+            expect(srcs[1:], ["on"], True)
         return q, exp
     if k == "star":
         a = srcs[0]
